@@ -124,6 +124,13 @@ def block(r, depth=0, plugins=(), directives=False):
         q = indent(inner, r.choice(["> ", ">", " > "]))
         if r.random() < 0.2:
             q += "lazy " + words(r) + "\n"
+        elif r.random() < 0.15:
+            # lazy continuation: only the first line keeps its marker
+            ls = q.split("\n")
+            q = "\n".join([ls[0]] + [l.lstrip("> ") if l.strip("> ") else l for l in ls[1:]])
+        elif r.random() < 0.1:
+            q = r.choice(["> a | b\n--- | ---\n1 | 2\n", "> term\n: def\n", "> para\n- item\n", "> x\n```\ncode\n```\n",
+                          "> h\n===\n", "> a\n    b\n"])
         return q
     if k < 0.80:
         ordered = r.random() < 0.4
@@ -233,3 +240,21 @@ def mixed_stream(r, n, plugins=(), directives=False):
             yield d
         else:
             yield noise(r)
+
+
+# blocks that interrupt / lazily continue one another: the places where rule priority matters
+HEADS = ["> quote", "- item", "1. one", "para text", "# head", "term", "| a | b |", "a | b", "    code", "<div>", "[^n]: note", "*[AB]: abbr",
+         "```", "$$", ">! spoil", ".. note:: T", ":::{note} T", "- [ ] task", "***", "[r]: /u"]
+TAILS = ["--- | ---", "|---|---|", ": def", "===", "---", "- next", "> more", "    indented", "lazy words", "```", "$$", "1 | 2", "| 1 | 2 |",
+         "   :class: c", ":::", "", "[^n]", "   more note", "![i](u)", "2. two", "<b>x</b>"]
+
+
+def interaction_doc(r, n=None):
+    out = []
+    for _ in range(n or r.randint(1, 3)):
+        out.append(r.choice(HEADS))
+        for _ in range(r.randint(1, 3)):
+            out.append(r.choice(TAILS))
+        if r.random() < 0.5:
+            out.append("")
+    return "\n".join(out) + "\n"
